@@ -27,6 +27,20 @@ func runC11(p *Program, r *Result) {
 	}
 	tb := p.TB(enc)
 	outer := loopOver(enc, func(v ssa.Value) bool { return v == enc.Params[1] })
+	if len(outer) > 1 {
+		// several loops over the recipients (an extra pre-check): the one that wraps the file key
+		var w []*RangeLoop
+		for _, l := range outer {
+			for _, c := range callsIn(enc) {
+				n := calleeName(c.Common())
+				if (n == "invoke (filippo.io/age.Recipient).Wrap" || n == "invoke (filippo.io/age.RecipientWithLabels).WrapWithLabels") && l.inLoop(c.Block()) {
+					w = append(w, l)
+					break
+				}
+			}
+		}
+		outer = w
+	}
 	if len(outer) != 1 {
 		r.Rule("R11.1", "labels of every recipient are compared with the first one's", 1)
 		r.Unk(enc.String(), "loop:recipients", "", "no full-range loop over the recipients parameter")
@@ -94,7 +108,7 @@ func runC11(p *Program, r *Result) {
 				bad = "too many paths"
 			}
 			for _, pa := range paths {
-				if pa.End != "stop" {
+				if pa.End != "stop" || !tb.pathFeasible(pa) {
 					continue
 				}
 				n++
